@@ -139,3 +139,48 @@ func zzIsPingSeq(reqs []zzReqSpec, seq uint64) bool {
 	}
 	return false
 }
+
+// zzH_SRVp: poll mode with pipelining: the two closures Server.listen hands to ServeMessages are
+// driven by two netpoll workers on ONE connection; requests must be executed and answered in arrival
+// order (the receive lock makes "read a request" and "hand it to the per-connection queue" atomic).
+func zzH_SRVp() {
+	n := vParam("srv.N", 2)
+	log := &zzLog{}
+	directIO := vChoose("directIO", 2) == 1
+	s, svc := zzNewServer(log, true, directIO, false, false)
+	s.poll = true
+	svc.yield = vParam("srvp.yield", 0) == 1
+	m := newZZMsgs(8)
+	m.yieldW = false
+	lis := newZZListener()
+	lis.poll = []*zzMsgs{m}
+	lis.workers = 2
+	args := make([][]byte, n)
+	for i := 0; i < n; i++ {
+		args[i] = []byte{byte(0x41 + i)}
+		m.deliver(zzRequest(uint64(i+1), nil, "S.Echo", args[i]))
+	}
+	vGo("listen", func() {
+		s.listen(&zzSocket{lis: lis}, "zz", func(messages socket_Messages) ServerCodec {
+			return NewServerCodec(&zzBytesCodec{}, nil, messages, s.directIO, 64)
+		})
+	})
+	vQuiesce()
+	m.fail(io.EOF)
+	m.fail(io.EOF)
+	vQuiesce()
+	s.Close()
+	vAtEnd(func() {
+		res := zzDecodeResponses(m)
+		vAssert(len(res) == n, "one-response-per-request")
+		for i := 0; i < len(res) && i < n; i++ {
+			vAssert(res[i].Seq == uint64(i+1), "responses-in-arrival-order")
+		}
+		vAssert(len(log.execs) == n, "no-extra-or-missing-execution")
+		for i := 0; i < len(log.execs) && i < n; i++ {
+			vAssert(vEqBytes(log.execs[i].snap, args[i]), "pipelined-execution-order")
+		}
+		vAssert(!log.overlap, "pipelined-no-overlap")
+		vReach("end")
+	})
+}
